@@ -284,3 +284,175 @@ Theorem pol_impl_node_spec rmin rmax mfh q r d0 k1 k1q dk k2q :
 Proof. intros H1 H2 H3. unfold pol_impl_node. rewrite H1. cbn [sp_bind]. rewrite H2. cbn [sp_bind]. rewrite H3. reflexivity. Qed.
 
 End PolTheory.
+
+(* ------------------------------------------------------------------------------------------ *)
+(** * facts that need the order laws of the field *)
+Section PolLaws.
+Variable F : Type.
+Variable K : sp_ops F.
+Hypothesis HK : sp_laws K.
+Add Field PolF : (spl_field K HK).
+Notation "x + y" := (spadd K x y). Notation "x * y" := (spmul K x y).
+Notation "x - y" := (spsub K x y). Notation "x / y" := (spdiv K x y).
+Notation "0" := (sp0 K). Notation "1" := (sp1 K).
+Notation "x <= y" := (sp_le K x y). Notation "x < y" := (sp_lt K x y).
+Notation le_refl := (sp_le_refl F K HK).
+Notation le_trans := (spl_le_trans K HK).
+
+Lemma pol_ltb_false a b : pol_ltb F K a b = false <-> b <= a.
+Proof. unfold pol_ltb, sp_le. destruct (spleb K b a); cbn; split; congruence. Qed.
+Lemma pol_ltb_true a b : pol_ltb F K a b = true -> a < b.
+Proof.
+  unfold pol_ltb. intros H. apply negb_true_iff in H. split.
+  - destruct (spl_le_total K HK a b) as [H1|H1]; [exact H1|]. unfold sp_le in H1. congruence.
+  - intros ->. pose proof (le_refl b) as H1. unfold sp_le in H1. congruence.
+Qed.
+Lemma pol_lt_ltb a b : a < b -> pol_ltb F K a b = true.
+Proof.
+  intros [H Hne]. destruct (pol_ltb F K a b) eqn:E; [reflexivity|]. apply pol_ltb_false in E.
+  exfalso. apply Hne. apply (spl_le_antisym K HK); assumption.
+Qed.
+
+(** clipping puts r into [rmin, rmax] *)
+Lemma pol_clip_range rmin rmax x : rmin <= rmax ->
+  pol_ltb F K (pol_clip F K rmin rmax x) rmin = false /\ pol_ltb F K rmax (pol_clip F K rmin rmax x) = false.
+Proof.
+  intros H. unfold pol_clip. destruct (pol_ltb F K x rmin) eqn:E1.
+  - split; apply pol_ltb_false; [apply le_refl|exact H].
+  - destruct (pol_ltb F K rmax x) eqn:E2.
+    + split; apply pol_ltb_false; [exact H|apply le_refl].
+    + split; assumption.
+Qed.
+
+(** in the implicit scheme the two fill branches are unreachable: the foot handed to the final
+    loop has been clipped, so the value written is always the interpolant at the (clipped) foot *)
+Theorem pol_impl_fill_unreachable_thm (E : pol_ev F) feq pi_ v nul pol rmin rmax kq x : rmin <= rmax ->
+  pol_fill F K E feq pi_ v nul pol rmin rmax (kq, pol_clip F K rmin rmax x) =
+    sp_bind (pol_mod F K kq (pol_twopi F K pi_)) (fun q' =>
+    sp_bind (pol_scalar F E pol q' (pol_clip F K rmin rmax x) 0%nat 0%nat) (fun val =>
+    SpOk (val, (q', pol_clip F K rmin rmax x)))).
+Proof.
+  intros H. destruct (pol_clip_range rmin rmax x H) as [H1 H2].
+  apply (pol_fill_rule_spec F K E feq pi_ v nul pol); assumption.
+Qed.
+
+(** the norm of a sweep dominates the two differences of every node *)
+Lemma pol_upd_ge n d : n <= pol_upd F K n d /\ d <= pol_upd F K n d.
+Proof.
+  unfold pol_upd. destruct (pol_ltb F K n d) eqn:E.
+  - split; [apply pol_ltb_true in E; exact (proj1 E)|apply le_refl].
+  - split; [apply le_refl|apply pol_ltb_false, E].
+Qed.
+Lemma pol_fold_upd_ge (l : list ((F * F) * (F * F))) : forall n0,
+  let r := fold_left (fun n nd => pol_upd F K (pol_upd F K n (fst (snd nd))) (snd (snd nd))) l n0 in
+  n0 <= r /\ forall nd, In nd l -> fst (snd nd) <= r /\ snd (snd nd) <= r.
+Proof.
+  induction l as [|a l IH]; intros n0; cbn [fold_left].
+  - split; [apply le_refl|]. intros nd [].
+  - destruct (IH (pol_upd F K (pol_upd F K n0 (fst (snd a))) (snd (snd a)))) as [H1 H2].
+    destruct (pol_upd_ge n0 (fst (snd a))) as [U1 U2].
+    destruct (pol_upd_ge (pol_upd F K n0 (fst (snd a))) (snd (snd a))) as [U3 U4].
+    split; [apply le_trans with (pol_upd F K n0 (fst (snd a))); [exact U1|apply le_trans with (1 := U3), H1]|].
+    intros nd [<-|Hin]; [|apply H2, Hin]. split.
+    + apply le_trans with (1 := U2). apply le_trans with (1 := U3), H1.
+    + apply le_trans with (1 := U4), H1.
+Qed.
+Theorem pol_norm_bounds (nodes : list (list ((F * F) * (F * F)))) i j :
+  (i < length nodes)%nat -> (j < length (nth i nodes []))%nat ->
+  let nd := nth j (nth i nodes []) ((0, 0), (0, 0)) in
+  fst (snd nd) <= pol_norm_of F K nodes /\ snd (snd nd) <= pol_norm_of F K nodes.
+Proof.
+  intros Hi Hj. cbv zeta. unfold pol_norm_of.
+  apply (proj2 (pol_fold_upd_ge (concat nodes) 0)). apply in_concat.
+  exists (nth i nodes []). split; apply nth_In; assumption.
+Qed.
+
+(** impl_result_is_fixed_point_within_tol: whenever the fuelled loop returns a value, the value is
+    one sweep applied to the previous iterate, and every node moved by at most tol, in theta (with
+    the 2 pi wrap) and in r *)
+Theorem pol_impl_fixed_point_within_tol (E : pol_ev F) pi_ rPts qPts phi tol fuel rmin rmax mfh D0 st0 done st norm n :
+  pol_impl_loop F K E pi_ rPts qPts phi tol fuel rmin rmax mfh D0 st0 done = PolRet (SpOk (st, norm, n)) ->
+  exists prev nodes, pol_impl_sweep F K E pi_ rPts qPts phi rmin rmax mfh D0 prev = SpOk (st, norm) /\
+    st = map (map fst) nodes /\ norm <= tol /\
+    forall i j, (i < pol_nq F qPts)%nat -> (j < pol_nr F rPts)%nat ->
+      pol_impl_node F K E pi_ phi rmin rmax mfh (nth i qPts 0) (nth j rPts 0) (pol_at2 F K D0 i j) (pol_at2 F K prev i j)
+        = SpOk (nth j (nth i nodes []) ((0, 0), (0, 0))) /\
+      fst (snd (nth j (nth i nodes []) ((0, 0), (0, 0)))) <= tol /\
+      snd (snd (nth j (nth i nodes []) ((0, 0), (0, 0)))) <= tol.
+Proof.
+  intros H. destruct (pol_impl_loop_returns F K E pi_ rPts qPts phi tol fuel rmin rmax mfh D0 _ _ _ _ _ H)
+    as [prev [Hs [Ht _]]].
+  destruct (pol_impl_sweep_nodes F K E pi_ rPts qPts phi rmin rmax mfh D0 prev st norm Hs)
+    as [nodes [Est [En [Hl Hn]]]].
+  exists prev, nodes. split; [exact Hs|]. split; [exact Est|]. apply pol_ltb_false in Ht. split; [exact Ht|].
+  intros i j Hi Hj. destruct (Hn i Hi) as [Hl2 Hn2]. split; [apply Hn2, Hj|].
+  destruct (pol_norm_bounds nodes i j) as [B1 B2]; [lia|lia|]. rewrite <- En in B1, B2.
+  split; apply le_trans with norm; assumption.
+Qed.
+
+(* ------------------------------------------------------------------------------------------ *)
+(** * theta modulo 2 pi *)
+Notation ofZ := (sp_ofZ F K).
+
+Lemma pol_le_of_sub a b : 0 <= b - a -> a <= b.
+Proof. apply (sp_nonneg_sub F K HK). Qed.
+Lemma pol_sub_of_le a b : a <= b -> 0 <= b - a.
+Proof. apply (sp_sub_nonneg F K HK). Qed.
+
+Lemma pol_ofpos_succ p : sp_ofpos F K (Pos.succ p) = sp_ofpos F K p + 1.
+Proof.
+  rewrite !(sp_ofpos_ofnat F K HK), Pos2Nat.inj_succ. reflexivity.
+Qed.
+Lemma pol_ofZ_opp t : (0 <= t)%Z -> ofZ (- t) = spopp K (ofZ t).
+Proof. destruct t as [|p|p]; intros H; cbn [Z.opp sp_ofZ]; [ring|reflexivity|lia]. Qed.
+Lemma pol_ofZ_opp_pred t : (0 <= t)%Z -> ofZ (- t - 1) = spopp K (ofZ t) - 1.
+Proof.
+  destruct t as [|p|p]; intros H; [cbn; ring| |lia].
+  replace (- Z.pos p - 1)%Z with (Z.neg (Pos.succ p)) by lia. cbn [sp_ofZ]. rewrite pol_ofpos_succ. ring.
+Qed.
+
+(** floor, from int() on non-negative numbers *)
+Lemma pol_floor_spec x : sp_trunc_ok F K ->
+  ofZ (pol_floor F K x) <= x /\ x < ofZ (pol_floor F K x) + 1.
+Proof.
+  intros Htr. unfold pol_floor. destruct (spleb K 0 x) eqn:E0.
+  - destruct (Htr x E0) as [_ [H1 H2]]. split; assumption.
+  - assert (Hx : x <= 0).
+    { destruct (spl_le_total K HK 0 x) as [H|H]; [unfold sp_le in H; congruence|exact H]. }
+    assert (Hy : 0 <= spopp K x).
+    { replace (spopp K x) with (0 - x) by ring. apply pol_sub_of_le, Hx. }
+    destruct (Htr _ Hy) as [Ht0 [H1 [H2 H2n]]]. cbv zeta.
+    destruct (speqb K (ofZ (sptrunc K (spopp K x))) (spopp K x)) eqn:Eq.
+    + apply (spl_eqb K HK) in Eq. rewrite pol_ofZ_opp by exact Ht0. rewrite Eq.
+      replace (spopp K (spopp K x)) with x by ring. split; [apply le_refl|]. split.
+      * apply pol_le_of_sub. replace (x + 1 - x) with 1 by ring. apply (sp_0_le_1 F K HK).
+      * intros Ex. apply (sp_1_neq_0 F K HK). replace 1 with ((x + 1) - x) by ring. rewrite <- Ex. ring.
+    + assert (Hne : ofZ (sptrunc K (spopp K x)) <> spopp K x).
+      { intros Ex. apply (spl_eqb K HK) in Ex. congruence. }
+      rewrite pol_ofZ_opp_pred by exact Ht0. set (t := ofZ (sptrunc K (spopp K x))) in *. split.
+      * apply pol_le_of_sub. replace (x - (spopp K t - 1)) with ((t + 1) - spopp K x) by ring.
+        apply pol_sub_of_le, H2.
+      * split.
+        -- apply pol_le_of_sub. replace (spopp K t - 1 + 1 - x) with (spopp K x - t) by ring.
+           apply pol_sub_of_le, H1.
+        -- intros Ex. apply Hne. replace t with (spopp K (spopp K t - 1 + 1)) by ring. rewrite <- Ex. reflexivity.
+Qed.
+
+(** mod_2pi_range: for a positive modulus the result of [%] exists and lies in [0, m) *)
+Theorem pol_mod_range_thm x m : sp_trunc_ok F K -> 0 < m ->
+  exists y, pol_mod F K x m = SpOk y /\ 0 <= y /\ y < m.
+Proof.
+  intros Htr [Hm Hmne]. assert (Hm0 : m <> 0) by (intros Em; apply Hmne; symmetry; exact Em).
+  unfold pol_mod. destruct (sp_eqb_spec F K HK m 0) as [Em|_]; [contradiction|].
+  eexists. split; [reflexivity|].
+  destruct (pol_floor_spec (x / m) Htr) as [H1 [H2 H2n]]. set (f := ofZ (pol_floor F K (x / m))) in *.
+  split; [|split].
+  - replace (x - m * f) with (m * (x / m - f)) by (field; exact Hm0).
+    apply (spl_mul_nonneg K HK); [exact Hm|apply pol_sub_of_le, H1].
+  - apply pol_le_of_sub. replace (m - (x - m * f)) with (m * (f + 1 - x / m)) by (field; exact Hm0).
+    apply (spl_mul_nonneg K HK); [exact Hm|apply pol_sub_of_le, H2].
+  - intros Ey. apply H2n. replace (x / m) with ((x - m * f) / m + f) by (field; exact Hm0).
+    rewrite Ey. field. exact Hm0.
+Qed.
+
+End PolLaws.
